@@ -435,18 +435,42 @@ def _d7(chk, fb):
                 wb, tb = cfg.stmt_block(w), cfg.stmt_block(t)
                 if wb is None or tb is None:
                     continue
-                # a throw under 'it == table.end()' with it = table.find(K) repeats the precondition when K's existence was
-                # established by the *MustExist_(K) test that dominates the whole function body: it cannot fire
-                if gi is not None and "cond" in gi:
+                # a throw taken only when 'K is absent from the table' (find(K) == end(), erase(K) == 0, count(K) == 0, in either
+                # polarity / branch arrangement) repeats the precondition when K's existence was established by the *MustExist_(K)
+                # test that dominates it and nothing erased from the table in between: it cannot fire
+                if t["k"] == "CXXThrowExpr":
                     import re as _re
-                    ct = render(f.nodes[gi["cond"]], local_inits(f))
-                    m_ = _re.match(r"^\((nodeStructure_|edgeStructure_)\.find\((\w+)\) == \1\.end\(\)\)$", ct) or \
-                        _re.match(r"^\((nodeStructure_|edgeStructure_)\.(?:erase|count)\((\w+)\) == 0\)$", ct) or \
-                        _re.match(r"^\(?!\(?(nodeStructure_|edgeStructure_)\.(?:erase|count)\((\w+)\)\)?\)?$", ct)
-                    if m_:
-                        want = ("nodeMustExist_" if m_.group(1) == "nodeStructure_" else "edgeMustExist_")
-                        pre = [c for c in f.calls() if c["callee"]["name"] == want and f.args(c) and render(f.args(c)[0]) == m_.group(2) and cfg.dominates(cfg.stmt_block(c), tb)]
-                        erased = [c for c in f.calls() if c["callee"]["name"] == "erase" and "obj" in c and render(f.obj(c)) == m_.group(1) and e1.before_in_function(cfg, c, t) and not f.contains(f.nodes[gi["cond"]], c)]
+                    sub_ = local_inits(f)
+
+                    def absent(facts_):
+                        for t_, tr_, nd_ in facts_:
+                            ct = render(nd_, sub_) if nd_ is not None else t_
+                            ct = ct.strip()
+                            m1 = _re.match(r"^\(?(nodeStructure_|edgeStructure_)\.find\((\w+)\) (==|!=) \1\.end\(\)\)?$", ct)
+                            if m1 and ((m1.group(3) == "==") == bool(tr_)):
+                                return m1.group(1), m1.group(2)
+                            m2 = _re.match(r"^\(?(nodeStructure_|edgeStructure_)\.(?:erase|count)\((\w+)\) (==|!=|>) 0\)?$", ct)
+                            if m2 and ((m2.group(3) == "==") == bool(tr_)):
+                                return m2.group(1), m2.group(2)
+                            m3 = _re.match(r"^\(?(nodeStructure_|edgeStructure_)\.(?:erase|count)\((\w+)\)\)?$", ct)
+                            if m3 and not tr_:
+                                return m3.group(1), m3.group(2)
+                        return None
+                    found_ = {}
+
+                    def est(facts_):
+                        r_ = absent(facts_)
+                        if r_:
+                            found_["tk"] = r_
+                            return True
+                        return False
+                    okg, _p = e1.guarded_by(cfg, tb, est)
+                    if okg and found_.get("tk"):
+                        tab_, key_ = found_["tk"]
+                        want = ("nodeMustExist_" if tab_ == "nodeStructure_" else "edgeMustExist_")
+                        pre = [c for c in f.calls() if c["callee"]["name"] == want and f.args(c) and render(f.args(c)[0]) == key_ and cfg.dominates(cfg.stmt_block(c), tb)]
+                        erased = [c for c in f.calls() if c["callee"]["name"] == "erase" and "obj" in c and render(f.obj(c)) == tab_ and e1.before_in_function(cfg, c, t)
+                                  and not (gi is not None and "cond" in gi and f.contains(f.nodes[gi["cond"]], c)) and e1.path_exists(cfg, cfg.stmt_block(c), tb)]
                         if pre and not erased:
                             continue
                 after = (wb == tb and e1.earlier_in_block(cfg, w, t)) or (wb != tb and e1.path_exists(cfg, wb, tb))
@@ -616,9 +640,17 @@ def _d12(chk, fb):
         for lp in f.all_nodes():
             if lp["k"] not in ("WhileStmt", "ForStmt", "DoStmt") or "cond" not in lp:
                 continue
-            cond = f.nodes[lp["cond"]]
-            tests = any(is_call(x) and x["callee"]["name"] != "end" and any("*it_" in render(a).replace("this.", "") or "*(it_)" in render(a).replace("this.", "") for a in f.args(x)) for x in walk(cond))
-            adv = any(is_call(x) and on_it(f, x, ("next", "operator++")) for x in walk(lp) if not f.contains(cond, x))
+            # the object of the current graph element is looked up (in the loop test or in the body, directly or through a local
+            # holding *it_) and the graph iterator is advanced inside the loop
+            derefs = {d["id"] for x in walk(lp) if x["k"] == "DeclStmt" for d in x["decls"] if d.get("init") is not None and "*it_" in render(d["init"]).replace("this.", "").replace("(", "").replace(")", "")}
+
+            def names_current(a):
+                t = render(a).replace("this.", "")
+                if "*it_" in t or "*(it_)" in t:
+                    return True
+                return any(y["k"] == "DeclRefExpr" and y["decl"]["id"] in derefs for y in walk(a))
+            tests = any(is_call(x) and x["callee"]["name"] != "end" and any(names_current(a) for a in f.args(x)) for x in walk(lp))
+            adv = any(is_call(x) and on_it(f, x, ("next", "operator++")) for x in walk(lp))
             if tests and adv:
                 out.append(lp)
         return out
